@@ -67,6 +67,17 @@ def gen(stratum, rng, tier):
         if rng.random() < 0.5:
             calls.append({"assumptions": cnf.with_assumptions(rng, clauses, 2)})
         return {"clauses": clauses, "calls": calls, "known": None, "budget": BUDGET_MID}
+    if stratum == "aliased":
+        # F + F: every clause *object* occurs twice in the list handed to the solver (same list objects, not copies)
+        n = rng.randint(5, 12)
+        F = [cnf.rand_clause(rng, n, rng.choice([3, 3, 3, 4, 2])) for _ in range(rng.randint(n, 4 * n))]
+        for _ in range(rng.randint(0, 3)):
+            F.append([rng.choice([-1, 1]) * rng.randint(1, n)])
+        calls = [{}, {"luby_factor": rng.choice([1, 2, 5])}]
+        if rng.random() < 0.4:
+            calls.append({"solution_limit": rng.choice([2, 5, 50])})
+        return {"clauses": F, "calls": calls, "known": None, "budget": BUDGET_SMALL,
+                "alias": [(i, len(F)) for i in range(len(F))]}
     if stratum == "tiny":
         clauses = cnf.tiny(rng)
         calls = [{}]
@@ -110,6 +121,18 @@ def gen(stratum, rng, tier):
             lits = [v if model[v] else -v for v in rng.sample(range(1, n + 1), 2)]
             calls.append({"assumptions": lits})
         budget = BUDGET_MID
+    elif stratum == "long-run":
+        # pigeonhole 8 into 7 (unsatisfiable by construction) under shuffled clause / literal order and several restart
+        # schedules: 5 000 - 15 000 conflicts in one call, so activity rescaling, dozens of restarts and several
+        # clause-database reductions all happen before the verdict.  (Random 3-SAT of 70-95 variables is refuted by
+        # this solver in ~200 conflicts and is no use here.)
+        p = 8 if tier == "quick" or rng.random() < 0.7 else 9
+        clauses = cnf.pigeonhole(p, p - 1)
+        rng.shuffle(clauses)
+        clauses = [rng.sample(c, len(c)) for c in clauses]
+        known = False
+        calls = [{"luby_factor": rng.choice([100, 100, 30, 300])}]
+        return {"clauses": clauses, "calls": calls, "known": known, "budget": 1_500_000_000}
     elif stratum == "reduce-planted":
         # satisfiable by construction and hard enough for >= 2000 learned clauses: clause-database reduction runs
         # on an instance whose verdict is known (a wrong INFEASIBLE after reduce_db is visible here)
@@ -275,8 +298,9 @@ def _call_clauses(case):
     """The clause list handed to solve_sat: fresh list objects, except for deliberate aliasing (the same list
     object at several positions) and tuple clauses when the case asks for them."""
     cl = [list(c) for c in case["clauses"]]
+    base = len(cl)
     for i, pos in case.get("alias") or ():
-        if i < len(cl):
+        if i < base:
             cl.insert(min(pos, len(cl)), cl[i])
     if case.get("as_tuples"):
         cl = [tuple(c) if k % 2 else c for k, c in enumerate(cl)]
